@@ -670,3 +670,26 @@ REGISTRY = {c.__name__: c for c in (C01, C02, C03, C04, C05, C06, C11, C12, C07,
 
 def get(prop):
     return REGISTRY.get(prop, Cfg)()
+
+
+# ---------------------------------------------------------------------------------------------
+# Which tie theorems (tools/extract_consts.py: layout constants; tools/rs2lean.py: code tables
+# translated from the source) are proof obligations of which property.  A constant or table that
+# a property's statement does not depend on must not alarm it.
+_CODEC = {"C01", "C02", "C03", "C04", "C05", "C06", "C09", "C10", "C14", "C15", "C16"}
+_READERS = {"C07", "C08"}
+
+
+def tie_relevant(prop, tie):
+    name = tie[4:]
+    if name == "DEFAULT_ECU_ID":
+        return prop == "C15"
+    if name == "DEFAULT_MESSAGE_MAX_LEN":
+        return prop in _READERS
+    if name in ("HEADER_MIN_LENGTH", "STORAGE_HEADER_LENGTH"):
+        return prop in _CODEC or prop in _READERS
+    if name.startswith("LEVEL_") or name in ("u8_to_log_level", "LogLevel_try_from", "LogLevel_to_u8"):
+        return prop in _CODEC                      # C09 / C10 read the level through these
+    if name.startswith("TYPE_INFO_") or name.startswith("TypeInfo_") or name.startswith("type_len"):
+        return prop in (_CODEC - {"C04", "C06", "C09", "C10"})
+    return prop in _CODEC
